@@ -732,4 +732,7 @@ def run(ck, tier):
     from ..msgtables import registered_classes as _rc
     ck.guard(_loops.rule_cursor_loops, ck, cx, 'R13', _rc(cx)[1], 'the client call hangs inside the decoder on one malformed reply instead of returning an error object', 8)
     ck.guard(r14_client_decoder_contains, ck, cx)
+    from .. import ownership as _own2
+    ck.rule('R15', 'no unsound memoisation (a caching decorator on a method, or on a function that returns a mutable container) in the modules this property rests on')
+    ck.guard(_own2.rule_no_unsafe_memo, ck, cx, 'R15', ('pymodbus.transaction', 'pymodbus.client.sync'), 'a value cached from an earlier transaction decides this one')
     return cx.idx
